@@ -26,6 +26,7 @@ from pyvc.proxies import And, Or, Not, Implies, SBool, SInt, SStr
 from pyvc import core
 
 LEVEL = "other"
+STANDIN_ALWAYS_THOROUGH = True      # its large bound takes seconds: used at both tiers
 EXPLANATION = ("MIXED. RuleRouter.find_handler proved by exhaustive case analysis for rule lists of <= 4 rules x all per-rule outcomes (no match / match with "
                "delegate / match without delegate): the first rule in order that matches and yields a delegate wins, target_kwargs are passed, later rules "
                "are not consulted, None if nothing matches; get_target_delegate's dispatch; PathMatches.match (groups through _unquote_or_none, named xor "
